@@ -530,7 +530,13 @@ class ExcelCompiler:
         for addr in input_addrs:
             try:
                 if addr in self.cell_map:
-                    walk_dependents(self.cell_map[addr])
+                    cell = self.cell_map[addr]
+                    walk_dependents(cell)
+                    if isinstance(cell, _CellRange):
+                        # the cells of an input range are inputs as well
+                        for member_addr in cell:
+                            if member_addr.address in self.cell_map:
+                                walk_dependents(self.cell_map[member_addr.address])
                     msg = ''
                 else:
                     msg = 'warning', f'Address {addr} not found in cell_map'
